@@ -739,11 +739,10 @@ fn get_field_decorators(
                 None
             }
         })
-        .filter_map(|list: MetaList| match list.path.get_ident() {
-            Some(ident) if languages.contains(&ident.try_into().unwrap()) => {
-                Some((ident.try_into().unwrap(), list))
-            }
-            _ => None,
+        .filter_map(|list: MetaList| {
+            // A nested list whose name is not a language (e.g. `typeshare(foo(..))`) is not a decorator.
+            let language = SupportedLanguage::try_from(list.path.get_ident()?).ok()?;
+            languages.contains(&language).then_some((language, list))
         })
         .map(|(language, list): (SupportedLanguage, MetaList)| {
             (
